@@ -20,6 +20,7 @@ TInit == /\ tid \in 1..Len(TraceLines) /\ l = 1
          /\ reg = {[id |-> r.id, sw |-> SwN, state |-> r.state, ms |-> r.ms] : r \in SeqToSet(T.reg0)}
          /\ timed = {[id |-> r.id, sw |-> SwN, due |-> r.due] : r \in SeqToSet(T.timed0)}
          /\ pcall = {} /\ incall = FALSE /\ pev = {} /\ nops = 0 /\ act = [op |-> "init"]
+         /\ muted = (IF T.muted0 THEN {SwN} ELSE {}) /\ mch = {}
 \* registered within the rounding tolerance of the original deadline: the hold-time entry may or may not be armed
 NearAdd(e) == e.ms > 0 /\ st[SwN] = e.state /\ last[SwN] + e.ms \in (now - Lax)..(now + Lax)
 Step(e) ==
@@ -30,13 +31,14 @@ Step(e) ==
     \/ /\ e.op = "add" /\ NearAdd(e) /\ CallOK(e.nested) /\ e.id \notin Ids(reg) /\ nops' = nops + 1
        /\ reg' = reg \cup {[id |-> e.id, sw |-> SwN, state |-> e.state, ms |-> e.ms]}
        /\ timed' \in {timed, timed \cup {[id |-> e.id, sw |-> SwN, due |-> last[SwN] + e.ms]}}
-       /\ UNCHANGED <<now, st, hw, last, pcall, incall, pev>> /\ act' = [op |-> "add"]
+       /\ UNCHANGED <<now, st, hw, last, pcall, incall, pev, muted, mch>> /\ act' = [op |-> "add"]
     \/ e.op = "remove" /\ RemoveHandler(e.id, e.nested)
+    \/ e.op = "mute" /\ SetMute(SwN, e.m)
     \/ e.op = "tfire" /\ TFire(e.id, "")
     \/ e.op = "sync" /\ ~incall /\ ~Overdue /\ st[SwN] = e.st /\ UNCHANGED vars
 \* move to the time of the next line (never past a pending hold-time entry), deliver configured events
 MoveTo == /\ l <= Len(TL) /\ now < TL[l].t /\ ~incall /\ (\A x \in timed : x.due + Lax >= TL[l].t)
-          /\ now' = TL[l].t /\ UNCHANGED <<st, hw, last, reg, timed, pcall, incall, pev, nops>> /\ act' = [op |-> "move"]
+          /\ now' = TL[l].t /\ UNCHANGED <<st, hw, last, reg, timed, pcall, incall, pev, nops, muted, mch>> /\ act' = [op |-> "move"]
 TNext == \/ l <= Len(TL) /\ now = TL[l].t /\ Step(TL[l]) /\ l' = l + 1 /\ UNCHANGED tid
          \/ MoveTo /\ UNCHANGED <<tid, l>>
          \/ (\E x \in pev : Deliver(x[1], x[2])) /\ UNCHANGED <<tid, l>>
